@@ -14,6 +14,11 @@ CLAIMS = {
    note="std::unordered_map is assumed to be a finite map; uint32 wrap-around of the revision counter is not modelled; switches name existing revisions.",
    technique="Lean 4 invariant proof over operation histories + differential correspondence of the model with the real template",
    ref="DESIGN.md §4 C20"),
+ "C08": dict(
+   text="Lean 4 theorems (Props/C08.lean) over a transcription of visitBasicTypeSpecifier / visitVoidTypeSpecifier / visit_AtSpecifiers_COMMON: for every sequence of the eleven keywords, of any length and order, the invalid-type diagnostic is absent iff the keyword multiset is a row of C11 6.7.2p2 (+ lone _Complex), the bound type is then the row's type, verdicts are order-independent, interleaved qualifiers/storage classes are transparent, and an empty specifier list gives int + the missing-specifier diagnostic. Proof: the 43 reachable (state, multiset) pairs and their successors are evaluated by the kernel (decide), induction over the sequence lifts it to all lengths. The hand model is tied to the real binder exhaustively: all 16,104 sequences up to length 4 (thorough: 177,155 up to length 5) x variable/parameter/field/typedef position, with and without interleaved const/volatile/static/extern/register; the C11 table is the oracle.",
+   note="Only the eleven keywords of the property; the binder is run up to bindDeclarations; after an invalid-type diagnostic the leftover type is not compared.",
+   technique="Lean 4 proof by kernel-evaluated reachable-state table + induction; exhaustive differential correspondence with the real binder",
+   ref="DESIGN.md §4 C08"),
  "C17": dict(
    text="Lean 4: generic theorem about the if/else-if trie interpreter (for every well-formed trie, every word of any length and every option valuation: recognised as kind k iff some root-to-return path spells exactly that word, carries kind k and has all its guards true) + four kernel-checked (decide) obligations on the trie that translators/keywords.py REGENERATES from C/parser/Keywords.cpp on every run: no sibling shadowing, nothing after nested chains, every keyword path tests exactly positions 0..n-1 (in bounds), distinct case labels, and set-equality of (spelling, kind, gate) with the hand-written specification table (C89/C99/C11 keywords, macro translations, GNU alternate keywords, extension switches). Corollaries: keyword iff exact spelling and gate; every other word (prefixes, one-character edits, case variants) is an identifier; recognition off => identifier or iso646 operator name. The translator is validated each run by lexing ~14k words x 85 option sets through the real SyntaxTree/Lexer and through the generated trie; the spec table evaluated directly is the oracle that yields failing (options, word) pairs.",
    note="The translator accepts a restricted C++ subset and fails loudly outside it (then: committed trie + full validation, reported as no-failing-input-found). Gates that no standard/manual fixes are recorded from the implementation (listed in KeywordSpec.lean). Reading a character past the word is excluded by the in-bounds obligation, not by running under a sanitizer.",
